@@ -305,6 +305,13 @@ Proof.
   apply PresJ_bind'; [apply PresJ_disconnect_interface | intros _; apply PresJ_ret].
 Qed.
 
+Lemma PresJ_disconnect_step X i : PresJ X (disconnect_step i).
+Proof.
+  unfold disconnect_step. apply PresJ_bind'; [apply PresJ_get | intros b].
+  destruct b; [apply PresJ_disconnect_peers_of | apply PresJ_ret].
+Qed.
+
+
 Lemma PresJ_of3 X (m : M unit) :
   (forall s s', J4 X s -> m s = (inl tt, s') -> J4 X s' /\ (forall x, In x (snd s) -> In x (snd s'))) -> PresJ X m.
 Proof. intros H s r s' HJ E. destruct r. apply H; assumption. Qed.
@@ -331,12 +338,12 @@ Qed.
 
 Lemma PresJ_node_tail X nm n :
   PresJ X (bind (m_get (fun g => disc_list g (node_interface_list g n))) (fun ifs =>
-           bind (for_each_set disconnect_peers_of ifs) (fun _ =>
+           bind (for_each_set disconnect_step ifs) (fun _ =>
            bind (m_get (fun g => by_name g CNode nm)) (fun all =>
            bind (uniq all EQuery EQuery) (fun n' => remove_node_graph n'))))).
 Proof.
   apply PresJ_bind'; [apply PresJ_get | intros ifs].
-  apply PresJ_bind'; [apply PresJ_for_each_set; intros i _; apply PresJ_disconnect_peers_of | intros _].
+  apply PresJ_bind'; [apply PresJ_for_each_set; intros i _; apply PresJ_disconnect_step | intros _].
   apply PresJ_bind'; [apply PresJ_get | intros all].
   apply PresJ_bind'; [apply PresJ_uniq | intros n']. apply PresJ_remove_node_graph.
 Qed.
@@ -366,13 +373,15 @@ Qed.
 Lemma PresJ_api_remove_link X nm : PresJ X (api_remove_link nm).
 Proof.
   unfold api_remove_link. apply PresJ_bind'; [apply PresJ_get | intros all].
-  apply PresJ_bind'; [apply PresJ_uniq | intros n]. apply PresJ_remove_link_graph.
+  apply PresJ_bind'; [apply PresJ_uniq | intros n].
+  apply PresJ_bind'; [apply PresJ_get | intros sp].
+  apply PresJ_bind'; [apply PresJ_guard | intros _]. apply PresJ_remove_link_graph.
 Qed.
 
 Lemma PresJ_remove_ns_disconnecting X s : PresJ X (remove_ns_disconnecting s).
 Proof.
   unfold remove_ns_disconnecting. apply PresJ_bind'; [apply PresJ_get | intros ifs].
-  apply PresJ_bind'; [apply PresJ_for_each_set; intros i _; apply PresJ_disconnect_peers_of | intros _].
+  apply PresJ_bind'; [apply PresJ_for_each_set; intros i _; apply PresJ_disconnect_step | intros _].
   apply PresJ_remove_ns.
 Qed.
 
@@ -391,7 +400,7 @@ Proof.
   apply PresJ_bind'; [apply PresJ_get | intros cs].
   apply PresJ_bind'; [apply PresJ_uniq | intros c'].
   apply PresJ_bind'; [apply PresJ_get | intros ifs].
-  apply PresJ_bind'; [apply PresJ_for_each_set; intros i _; apply PresJ_disconnect_peers_of | intros _].
+  apply PresJ_bind'; [apply PresJ_for_each_set; intros i _; apply PresJ_disconnect_step | intros _].
   apply PresJ_remove_component.
 Qed.
 
